@@ -120,6 +120,27 @@ func (tr *Trans) staticCall(fn *ssa.Function, binds []Val, args []Val, in ssa.In
 			}
 		}
 	}
+	if fn == tr.fn && tr.top && tr.g.opts.Safety && tr.g.dry == 0 {
+		// direct recursion: needs a measure (contract clause `loop 0 decreases <expr>`); without one the depth
+		// is not bounded by anything the verifier can see
+		var goal Term = tFalse
+		if tr.contract != nil && tr.contract.Loops[0] != nil && tr.contract.Loops[0].Decreases != nil {
+			d := tr.contract.Loops[0].Decreases
+			envNow := tr.newEnv(tr.pre, tr.st)
+			for i, p := range fn.Params {
+				if i < len(args) {
+					envNow.vars[p.Name()] = args[i]
+				}
+			}
+			envEntry := tr.topEnv(tr.pre)
+			envEntry.useOld = true
+			m1 := envNow.eval(d.AST).C[0]
+			m0 := envEntry.eval(d.AST).C[0]
+			goal = and(lt(m1, m0), ge(m0, intT(0)))
+		}
+		tr.e.oblige(&Obl{Name: fmt.Sprintf("%s#recursion#%d", tr.label, tr.ordinal("recursion", in)), Kind: "recursion", Cond: tr.rc, Goal: goal,
+			Pos: tr.posOf(in), Fn: tr.label, Props: tr.safetyProps()})
+	}
 	isClosure := fn.Parent() != nil
 	if (isClosure && ct == nil || ct != nil && ct.Inline) && fn.Blocks != nil && tr.g.depth < 8 {
 		tr.g.calleesUsed[key] = "inlined"
@@ -443,6 +464,7 @@ type target struct {
 	ranged bool
 	lo, hi Term // absolute index range within the backing array
 	desc  string
+	cond  Term // the target may change only when cond holds (empty = always)
 }
 
 // fieldTargets lists the heap entries for field f of the struct at base (recursing into embedded objects).
@@ -487,6 +509,21 @@ func (tr *Trans) targetsOf(env *Env, e ast.Expr) ([]target, bool) {
 		switch fn {
 		case "__all":
 			return nil, true
+		case "when":
+			// when(cond, target): conditional frame
+			c := env.evalBool(x.Args[0])
+			ts, all := tr.targetsOf(env, x.Args[1])
+			if all {
+				return nil, true
+			}
+			for k := range ts {
+				if ts[k].cond.ok() {
+					ts[k].cond = and(ts[k].cond, c)
+				} else {
+					ts[k].cond = c
+				}
+			}
+			return ts, false
 		case "elems":
 			v := env.eval(x.Args[0])
 			var et types.Type
@@ -652,9 +689,18 @@ func (tr *Trans) havocTargets(env *Env, ct *Contract) {
 	}
 	for _, t := range ts {
 		cur := tr.st.get(tr.e, t.key, t.sort)
+		if t.cond.ok() && t.cond.S == "false" {
+			continue
+		}
+		guard := func(nw Term) Term {
+			if t.cond.ok() {
+				return ite(t.cond, nw, cur)
+			}
+			return nw
+		}
 		switch {
 		case t.whole:
-			tr.st.set(t.key, tr.e.fresh("hv$"+t.key, t.sort))
+			tr.st.set(t.key, guard(tr.e.fresh("hv$"+t.key, t.sort)))
 		case t.ranged:
 			inner := t.sort.elem()
 			old := sel(cur, t.ref)
@@ -662,10 +708,10 @@ func (tr *Trans) havocTargets(env *Env, ct *Contract) {
 			// frame: indices outside [lo,hi) keep their value
 			tr.e.assume(tr.rc, Term{fmt.Sprintf("(forall ((i Int)) (! (=> (or (< i %s) (>= i %s)) (= (select %s i) (select %s i))) :pattern ((select %s i))))",
 				t.lo.S, t.hi.S, nw.S, old.S, nw.S), SBool})
-			tr.st.set(t.key, tr.e.name("H", store(cur, t.ref, nw)))
+			tr.st.set(t.key, tr.e.name("H", guard(store(cur, t.ref, nw))))
 		default:
 			nv := tr.e.fresh("hv", t.sort.elem())
-			tr.st.set(t.key, tr.e.name("H", store(cur, t.ref, nv)))
+			tr.st.set(t.key, tr.e.name("H", guard(store(cur, t.ref, nv))))
 		}
 	}
 }
